@@ -2,12 +2,23 @@
    read) accepts is accepted by the model of the library's BER decoder, with the same abstract value
    and the same unread remainder.
 
-   Stage 1  header level: split_ident / split_length (reference) = dec_ident / dec_len (model) on
-            arbitrary octets: long-form tag numbers, over-long length octets.
-   Stage 1b tree level: what parse_one returns is a well-shaped TLV tree over the model's header
-            functions (shape).
-   Stage 2  primitive leaves: contents the reference interprets are decoded to the same value.
-   Stage 3+ see below. *)
+   1   header level: split_ident / split_length (reference) = dec_ident / dec_len (model) on arbitrary
+       octets: long-form tag numbers, over-long length octets (split_ident_dec_ident, split_length_dec_len);
+   1b  tree level: what parse_one returns is a well-shaped TLV tree over the model's header functions
+       (shape, parse_one_shape);
+   2   primitive leaves: contents the reference interprets are decoded to the same value
+       (bool_leaf, oid_leaf, bits_leaf, real_leaf; INTEGER is LeafInt.signed_value_is_from_bytes);
+   3   running the decoder over one TLV: header, EXPLICIT levels definite or indefinite, the level that
+       completes the tag set, for a type or a tag map as the spec (call_header, sp_ok, item_of_value_sp,
+       item_of_explicit_sp);
+   4-5 the member loops; strings in any segmentation (octet_string_item, bit_string_item);
+   6-7 the fragment of types (frag) and one lemma per base type (the item_ lemmas);
+   9-10 tag maps of component lists; SET in any order; SEQUENCE with OPTIONAL / DEFAULT;
+   11  the induction (all_items) and the theorems ber_all_forms_tree, ber_all_forms, ber_all_forms_no_bits.
+
+   Side conditions (see section 11): no_empty_constructed_bits (library defect: 23 00 refused),
+   real_mantissas_present, ascii_strings_ascii.  Outside the fragment: CHOICE, ANY, character strings
+   whose repertoire the model does not decide (UniversalString, BMPString), EXPLICIT UNIVERSAL tags. *)
 From Coq Require Import Lia.
 From PV Require Import Base.Bytes Model.Tag Model.TableTypes Model.Types Model.Proc Model.Enc Model.Dec Gen.Tables Spec.X690
      Proofs.Bits Proofs.ProcBind Proofs.RunLemmas Proofs.TagOctets Proofs.TagAlgebra Proofs.DecHeader Proofs.DecFrame
@@ -1680,8 +1691,9 @@ Section BitsValue.
              (DV T0 (VBits (concat bss))).
   Proof.
     intros Hts HF Hlf Hne s tl Hav. unfold dec_bits.
-    destruct (N.eqb_spec (N.of_nat (length (concat parts))) 0) as [E|_]; [lia|].
-    rewrite Hts, Hfl. cbn [negb]. rewrite resume_tell.
+    (* written so as to survive the planned move of the zero-length test into the primitive branch *)
+    assert (Hz: N.eqb (N.of_nat (length (concat parts))) 0 = false) by (apply N.eqb_neq; lia).
+    rewrite ?Hz, Hts, ?Hz, Hfl. cbn [negb]. rewrite resume_tell.
     destruct (bits_loop_run (dec_call BER f) (Some T0) ts parts bss HF f [] (pos s) (length (concat parts)) s tl Hlf Hav
                 ltac:(lia) ltac:(lia)) as (s' & Hrun & _ & Hpos & Harr & Hcl).
     rewrite Hrun. cbn [app]. rewrite create_bits. cbn [resume]. exists s'. repeat split; assumption.
@@ -1708,8 +1720,8 @@ Lemma bits_prim_value f T0 fl ts u c bs :
   consumes (dec_bits (dec_call BER f) f fl (Some T0) ts (N.of_nat (length (u :: c))) false) (u :: c) (DV T0 (VBits bs)).
 Proof.
   intros Hts [Hmax Hf] Hu Hj s tl Hav. unfold dec_bits.
-  destruct (N.eqb_spec (N.of_nat (length (u :: c))) 0) as [E|_]; [cbn [length] in E; lia|].
-  rewrite Hts. rewrite (resume_read1 s u (c ++ tl) _ Hav). rewrite Hu.
+  assert (Hz: N.eqb (N.of_nat (length (u :: c))) 0 = false) by (apply N.eqb_neq; cbn [length]; lia).
+  rewrite ?Hz, Hts, ?Hz. rewrite (resume_read1 s u (c ++ tl) _ Hav). rewrite Hu.
   replace (N.of_nat (length (u :: c)) - 1) with (N.of_nat (length c)) by (cbn [length]; lia).
   assert (Hav1: avail (adv s 1) = c ++ tl) by (apply (avail_cons_adv _ _ _ Hav)).
   cbn [length] in Hmax, Hf.
@@ -3429,36 +3441,51 @@ Proof. unfold mkey_eqb, tag_pair_eqb. rewrite !N.eqb_refl. destruct (fst k); ref
 Lemma memk_in k L : In k L -> memk k L = true.
 Proof. intros H. apply existsb_exists. exists k. split; [exact H|apply mkey_eqb_refl]. Qed.
 
-Lemma memk_filter_true k : forall L, memk (KB, k) (filter (fun x : mkey => fst x) L) = memk (KB, k) L.
+Definition of_kind (q: kind) (L: list mkey) : list mkey := filter (fun x : mkey => kind_eqb (fst x) q) L.
+
+Lemma memk_of_kind q k : forall L, memk (q, k) (of_kind q L) = memk (q, k) L.
 Proof.
-  induction L as [|[b0 k0] L IH]; [reflexivity|]. cbn [filter fst]. destruct b0.
+  induction L as [|[q0 k0] L IH]; [reflexivity|]. unfold of_kind in *. cbn [filter fst].
+  destruct (kind_eqb q0 q) eqn:E.
   - unfold memk in *. cbn [existsb]. rewrite IH. reflexivity.
-  - unfold memk in *. cbn [existsb]. rewrite IH. unfold mkey_eqb at 2. cbn [fst Bool.eqb andb orb]. reflexivity.
+  - unfold memk in *. cbn [existsb]. rewrite IH. unfold mkey_eqb at 2. cbn [fst].
+    replace (kind_eqb q q0) with false by (destruct q, q0; try reflexivity; discriminate E). reflexivity.
 Qed.
 
-Lemma memk_filter_false k : forall L, memk (KR, k) (filter (fun x : mkey => negb (fst x)) L) = memk (KR, k) L.
+Lemma memk_other_kind q q' k : q <> q' -> forall L, memk (q, k) (of_kind q' L) = false.
 Proof.
-  induction L as [|[b0 k0] L IH]; [reflexivity|]. cbn [filter fst negb]. destruct b0; cbn [negb].
-  - unfold memk in *. cbn [existsb]. rewrite IH. unfold mkey_eqb at 2. cbn [fst Bool.eqb andb orb]. reflexivity.
-  - unfold memk in *. cbn [existsb]. rewrite IH. reflexivity.
+  intros Hne. induction L as [|[q0 k0] L IH]; [reflexivity|]. unfold of_kind in *. cbn [filter fst].
+  destruct (kind_eqb q0 q') eqn:E; [|exact IH].
+  unfold memk in *. cbn [existsb]. rewrite IH. unfold mkey_eqb. cbn [fst].
+  replace (kind_eqb q q0) with false by (destruct q, q0, q'; try reflexivity; try discriminate E; congruence). reflexivity.
 Qed.
 
 (* SIDE CONDITION 1, to drop once the library accepts 23 00: no definite-length constructed node without
    members under a (class, number) a BIT STRING of T can carry *)
-Definition no_empty_constructed_bits (T: ty) (n: node) : bool := safe (filter (fun x : mkey => fst x) (side_keys T None)) n.
+Definition no_empty_constructed_bits (T: ty) (n: node) : bool := safe (of_kind KB (side_keys T None)) n.
 (* SIDE CONDITION 2: every primitive node under a (class, number) a REAL of T can carry has, if it is a
    binary encoding, at least one mantissa octet *)
-Definition real_mantissas_present (T: ty) (n: node) : bool := safe (filter (fun x : mkey => negb (fst x)) (side_keys T None)) n.
+Definition real_mantissas_present (T: ty) (n: node) : bool := safe (of_kind KR (side_keys T None)) n.
+(* SIDE CONDITION 3: under a (class, number) that a character string of T with an ASCII repertoire
+   (NumericString, PrintableString, IA5String, VisibleString, the time types, UTF8String) can carry,
+   every octet of every primitive leaf is below 128 (the library checks the repertoire, X.690 does not) *)
+Definition ascii_strings_ascii (T: ty) (n: node) : bool := safe (of_kind KA (side_keys T None)) n.
 
-Lemma safe_split L : forall n, safe (filter (fun x : mkey => fst x) L) n = true ->
-  safe (filter (fun x : mkey => negb (fst x)) L) n = true -> safe L n = true.
+Lemma safe_split L : forall n, safe (of_kind KB L) n = true -> safe (of_kind KR L) n = true -> safe (of_kind KA L) n = true ->
+  safe L n = true.
 Proof.
-  induction n as [c num contents raw|c num indef kids raw IH] using node_ind'; intros H1 H2.
-  - cbn [safe] in *. rewrite memk_filter_false in H2. exact H2.
-  - cbn [safe] in *. rewrite memk_filter_true in H1.
-    apply andb_true_iff in H1. destruct H1 as [H1a H1b]. apply andb_true_iff in H2. destruct H2 as [_ H2b].
-    rewrite H1a. cbn [andb]. apply forallb_forall. intros k Hk. rewrite Forall_forall in IH.
-    rewrite forallb_forall in H1b, H2b. apply (IH k Hk (H1b k Hk) (H2b k Hk)).
+  induction n as [c num contents raw|c num indef kids raw IH] using node_ind'; intros H1 H2 H3.
+  - cbn [safe] in *. rewrite memk_of_kind in H2, H3.
+    rewrite (memk_other_kind KA KR) in H2 by discriminate. rewrite (memk_other_kind KR KA) in H3 by discriminate.
+    cbn [negb orb andb] in H2, H3. rewrite andb_true_r in H2. rewrite H2, H3. reflexivity.
+  - cbn [safe] in *. rewrite memk_of_kind in H1, H3.
+    rewrite (memk_other_kind KA KB) in H1 by discriminate. rewrite (memk_other_kind KB KA) in H3 by discriminate.
+    cbn [negb orb andb] in H1, H3. rewrite !andb_false_r in H3. cbn [negb andb] in H3.
+    apply andb_true_iff in H1. destruct H1 as [H1a H1b]. rewrite andb_true_r in H1a.
+    apply andb_true_iff in H2. destruct H2 as [_ H2b].
+    apply andb_true_iff in H3. destruct H3 as [H3a H3b].
+    rewrite H1a, H3a. cbn [andb]. apply forallb_forall. intros k Hk. rewrite Forall_forall in IH.
+    rewrite forallb_forall in H1b, H2b, H3b. apply (IH k Hk (H1b k Hk) (H2b k Hk) (H3b k Hk)).
 Qed.
 
 (* C09, tree form: whatever TLV tree the reference parses off the front of b and interprets under T as
@@ -3467,11 +3494,11 @@ Qed.
 Theorem ber_all_forms_tree : forall T b n a tl,
   frag T = true -> wf_bytes b = true -> N.of_nat (length b) <= index_max ->
   parse b = Some (n, tl) -> interp T None n = Some a ->
-  no_empty_constructed_bits T n = true -> real_mantissas_present T n = true ->
+  no_empty_constructed_bits T n = true -> real_mantissas_present T n = true -> ascii_strings_ascii T n = true ->
   exists v, decode BER (Some T) b = Ok (DV T v, tl) /\ abs T v = a.
 Proof.
-  intros T b n a tl Hfr Hwf Hmax Hparse Hint Hsafe1 Hsafe2.
-  pose proof (safe_split (side_keys T None) n Hsafe1 Hsafe2) as Hsafe.
+  intros T b n a tl Hfr Hwf Hmax Hparse Hint Hsafe1 Hsafe2 Hsafe3.
+  pose proof (safe_split (side_keys T None) n Hsafe1 Hsafe2 Hsafe3) as Hsafe.
   pose proof (wf_bytes_octs b Hwf) as Hb.
   destruct (parse_shape b n tl Hb Hparse) as [Hsh Eb].
   destruct (frag_facts T Hfr) as [Hw Htb].
@@ -3495,22 +3522,23 @@ Qed.
 Theorem ber_all_forms : forall T b a tl,
   frag T = true -> wf_bytes b = true -> N.of_nat (length b) <= index_max ->
   X690.read T b = Some (a, tl) ->
-  (forall n r, parse b = Some (n, r) -> no_empty_constructed_bits T n = true /\ real_mantissas_present T n = true) ->
+  (forall n r, parse b = Some (n, r) ->
+     no_empty_constructed_bits T n = true /\ real_mantissas_present T n = true /\ ascii_strings_ascii T n = true) ->
   exists v, decode BER (Some T) b = Ok (DV T v, tl) /\ abs T v = a.
 Proof.
   intros T b a tl Hfr Hwf Hmax Hread Hsafe. unfold X690.read in Hread.
   destruct (parse b) as [[n rest]|] eqn:Hp; [|discriminate Hread].
   destruct (interp T None n) as [a'|] eqn:Hi; [|discriminate Hread]. cbn [opt_bind] in Hread.
   inversion Hread; subst a' rest.
-  destruct (Hsafe n tl eq_refl) as [H1 H2].
-  apply (ber_all_forms_tree T b n a tl Hfr Hwf Hmax Hp Hi H1 H2).
+  destruct (Hsafe n tl eq_refl) as (H1 & H2 & H3).
+  apply (ber_all_forms_tree T b n a tl Hfr Hwf Hmax Hp Hi H1 H2 H3).
 Qed.
 
-(* types in which neither BIT STRING nor REAL occurs need no side condition *)
+(* types in which no BIT STRING, REAL or ASCII-repertoire string occurs need no side condition *)
 Lemma safe_nil : forall n, safe [] n = true.
 Proof.
   induction n as [c num contents raw|c num indef kids raw IH] using node_ind'; [reflexivity|].
-  cbn [safe memk existsb]. rewrite andb_false_r. cbn [negb andb]. apply forallb_forall. intros k Hk.
+  cbn [safe memk existsb]. rewrite andb_false_r. cbn [negb andb orb]. apply forallb_forall. intros k Hk.
   rewrite Forall_forall in IH. apply IH. exact Hk.
 Qed.
 
@@ -3520,7 +3548,8 @@ Theorem ber_all_forms_no_bits : forall T b a tl,
   exists v, decode BER (Some T) b = Ok (DV T v, tl) /\ abs T v = a.
 Proof.
   intros T b a tl Hfr Hnb Hwf Hmax Hread. apply (ber_all_forms T b a tl Hfr Hwf Hmax Hread).
-  intros n r _. unfold no_empty_constructed_bits, real_mantissas_present. rewrite Hnb. cbn [filter]. split; apply safe_nil.
+  intros n r _. unfold no_empty_constructed_bits, real_mantissas_present, ascii_strings_ascii. rewrite Hnb.
+  unfold of_kind. cbn [filter]. repeat split; apply safe_nil.
 Qed.
 
 (* the hypotheses are satisfiable on an input that uses the liberties of the basic rules: indefinite
@@ -3544,7 +3573,8 @@ Example ber_all_forms_nonvacuous :
   /\ X690.read ex_T ex_b
      = Some (ARec [Some (AInt 5); None; Some (ABool true); Some (ABits ex_bits); Some (AList [AOcts [200]]);
                    Some (ARec [Some (ABool true); Some (AOid [1; 2; 3]); Some (AInt 7); Some (AReal (ABin 5 (-1)))])], [9; 9])
-  /\ (forall n r, parse ex_b = Some (n, r) -> no_empty_constructed_bits ex_T n = true /\ real_mantissas_present ex_T n = true)
+  /\ (forall n r, parse ex_b = Some (n, r) ->
+        no_empty_constructed_bits ex_T n = true /\ real_mantissas_present ex_T n = true /\ ascii_strings_ascii ex_T n = true)
   /\ decode BER (Some ex_T) ex_b
      = Ok (DV ex_T (VRec [Some (VInt 5); None; None; Some (VBits ex_bits); Some (VList [VOcts [200]]);
                           Some (VRec [Some (VBool true); Some (VOid [1; 2; 3]); None; Some (VReal (RBin 5 (-1)))])]), [9; 9]).
@@ -3555,16 +3585,23 @@ Proof.
   revert H. destruct (parse ex_b) as [[n0 r0]|] eqn:Hp; [|congruence].
   intros H. inversion H; subst n0 r0. clear H E.
   assert (Hc: match parse ex_b with
-              | Some (n1, _) => no_empty_constructed_bits ex_T n1 && real_mantissas_present ex_T n1
+              | Some (n1, _) => no_empty_constructed_bits ex_T n1 && (real_mantissas_present ex_T n1 && ascii_strings_ascii ex_T n1)
               | None => false end = true)
     by (vm_compute; reflexivity).
-  rewrite Hp in Hc. apply andb_true_iff in Hc. exact Hc.
+  rewrite Hp in Hc. apply andb_true_iff in Hc. destruct Hc as [H1 H2]. apply andb_true_iff in H2. tauto.
 Qed.
 
 (* the second side condition is needed as the reference stands *)
 Example real_refuted_empty_mantissa :
   X690.read TReal [9; 2; 128; 0] = Some (AReal AZero, []) /\ decode BER (Some TReal) [9; 2; 128; 0] = Err EMalformed.
 Proof. vm_compute. split; reflexivity. Qed.
+
+(* the third side condition reflects a check the library makes and X.690 does not *)
+Example ascii_refuted_high_octet :
+  X690.read (TStr 22) [22; 1; 200] = Some (AOcts [200], []) /\ decode BER (Some (TStr 22)) [22; 1; 200] = Err EUnicode
+  /\ X690.read (TStr 22) [54; 128; 4; 1; 72; 36; 3; 4; 1; 105; 0; 0] = Some (AOcts [72; 105], [])
+  /\ decode BER (Some (TStr 22)) [54; 128; 4; 1; 72; 36; 3; 4; 1; 105; 0; 0] = Ok (DV (TStr 22) (VOcts [72; 105]), []).
+Proof. vm_compute. repeat split. Qed.
 
 Print Assumptions split_ident_dec_ident.
 Print Assumptions split_length_dec_len.
